@@ -1389,7 +1389,10 @@ fn prepare_deferred_record_data(
     let total_size = format.total_size(source.key.len(), source.value_len);
     let sectors = total_size.div_ceil(FEOX_BLOCK_SIZE);
     #[cfg(all(feature = "verif", target_os = "linux"))]
-    crate::verif::extent_pinned(disk_io.read().verif_file_id(), sector, sectors as u64);
+    {
+        let file_id = disk_io.read().verif_file_id();
+        crate::verif::extent_pinned(file_id, sector, sectors as u64);
+    }
     #[cfg(feature = "verif")]
     crate::verif::sched("deferred.before_pread", sector, sectors as u64);
     let mut data = disk_io.read().read_sectors_sync(sector, sectors as u64)?;
